@@ -29,7 +29,10 @@ META = {
             "real compiler (rejected programs are bisected out and counted) and evaluated by VmPolicy on a fresh linear-storage "
             "perspective wrapped in a spy that logs insert/delete; VIOLATION iff a real Panic / Check-without-recall run "
             "touched facts or emitted effects, a recall effect is not marked recalled, or the fact writes / effects / stored "
-            "facts differ from the reference outcome.",
+            "facts differ from the reference outcome. The enumeration also contains programs with a misplaced finish-only "
+            "statement (emit/create/delete/finish-function call outside finish, inline or inside a pure function): the spec shows "
+            "they would break the property if accepted, the check confirms the compiler rejects them and, should one be accepted, "
+            "runs it under the same predicate.",
     "note": "Bounds: quick — every policy block of <= 3 statements (nested ones counted), nesting <= 2, 5 finish bodies, 6 "
             "recall blocks, 3 match-arm bodies (12 266 programs, each with the run-time values of its conditions); thorough — "
             "additionally every flat block of <= 4 statements (37 831) and ~10 000 random derivations with <= 4 statements, "
@@ -114,12 +117,14 @@ def run(ctx):
     res = ctx.run_engine(vh, "stmts", cases, timeout=2400)
     if len(res) != len(cases):
         raise verif.ToolError("engine returned %d results for %d programs" % (len(res), len(cases)))
-    rejected = sum(1 for x in res if x.get("rejected"))
+    stray = [x for x in res if x["_in"].get("stray")]
+    stray_rejected = sum(1 for x in stray if x.get("stray_rejected"))
+    rejected = sum(1 for x in res if x.get("rejected") and not x.get("stray_rejected"))
     if rejected * 50 > len(cases):
         raise verif.ToolError("%d of %d generated programs were rejected by the real compiler" % (rejected, len(cases)))
     ctx.absorb(res)
     # binding self-test: perturbed expectations must be rejected
-    ok = [x["_in"] for x in res if x.get("ok") and not x.get("rejected")]
+    ok = [x["_in"] for x in res if x.get("ok") and not x.get("rejected") and not x["_in"].get("stray")]
     bad = []
     b = next((x for x in ok if x["exit"] == "Normal" and any(i["io"] == "effect" for i in x["io"])), None)
     if b:
@@ -148,7 +153,7 @@ def run(ctx):
         st = ctx.run_engine(vh, "stmts", bad, tag="selftest")
         if len(st) != len(bad) or any(x.get("ok") for x in st):
             raise verif.ToolError("binding self-test failed: a perturbed expectation was accepted")
-    ran = len(cases) - rejected
+    ran = len(cases) - rejected - stray_rejected
     ctx.cov.update({
         "exhaustive": True,
         "constants": {"exhaustive": "MaxStmts=3 MaxDepth=2, 5 finish bodies, 6 recall blocks, 3 match-arm bodies"
@@ -157,6 +162,9 @@ def run(ctx):
         "programs": ran,
         "programs_generated": len(cases),
         "programs_rejected_by_compiler": rejected,
+        "misplaced_statement_programs": len(stray),
+        "misplaced_rejected_by_compiler": stray_rejected,
+        "misplaced_accepted_and_run": len(stray) - stray_rejected,
         "disagreements_checked": ran,
         "states": states,
         "random_derivations": nsim,
@@ -167,6 +175,7 @@ def run(ctx):
         "selftest": "%d perturbed expectations rejected" % len(bad),
     })
     ctx.assumptions += [
+        "programs with a finish-only statement outside a finish block (inline or inside a pure function) are expected to be rejected; one the compiler accepts is run and judged by the property's predicate alone (Panic / Check-without-recall with side effects)",
         "a program the real compiler rejects is skipped and counted (the property speaks about accepted policies)",
         "side effects are observed at the perspective (insert/delete calls through a delegating spy) and at the sink (effects with recalled flag), one level below MachineIO",
         "the run-time value of each condition is passed in a command field of its own; conditions themselves are trivial expressions (expression semantics is C22/C23)",
